@@ -447,6 +447,13 @@ def gen_cases(ctx):
         cases.append(("g", l))
     for key in sorted(WITNESS):
         cases.append(("g", WITNESS[key][0]))
+    # a name unknown to passwd met again (its negative answer comes from the scan's cache), leading its group, after groups
+    # with resolvable members: nobody joins a group through it (round 8: a cached miss reported as a hit without a uid)
+    for perm in (("a",), ("a", "b"), ("b", "a", "c")):
+        for ghost in ("ghost", "nobody-here", "4294967294"):
+            groups = [(100, list(perm)), (9, [ghost]), (10, [ghost, perm[0]]), (11, [ghost]), (100, [ghost, ghost])]
+            pw = [(n, u) for n, u in zip(("a", "b", "c"), (1000, 7, 8))]
+            cases.append(("g", "%s G%s P%s M5 R10 A" % (g.head("g", U=[1000, 7, 8, 0, 4294967294], G=[100, 9, 10, 11]), db_str(groups), pw_str(pw))))
     for _ in range(3000 if T else 500):
         cases.append(("g", g.build_case("g", "small")))
     for _ in range(200 if T else 40):
